@@ -201,6 +201,9 @@ pub enum Op {
     UseOriginal,
     /// `Kind::NestedValues`: one element is pulled directly from the base iterator
     BasePull,
+    /// the rest of this thread's list is executed from a destructor while the thread unwinds
+    /// from a panic of the caller's own code (`std::thread::panicking()` is true throughout)
+    InUnwind,
     /// `iter.ids_and_values().nth(k)`, k >= 1: k elements are consumed unseen, the (k+1)-th is
     /// returned with its index (C02 only: the other oracles cannot account for the unseen ones)
     IdsValuesNth(usize),
@@ -782,8 +785,38 @@ where
 {
     let mut buf = None;
     let mut buf_size = 0usize;
-    for op in ops {
+    for (oi, op) in ops.iter().enumerate() {
         match *op {
+            Op::InUnwind => {
+                struct RunOnDrop<F: FnMut()>(F);
+                impl<F: FnMut()> Drop for RunOnDrop<F> {
+                    fn drop(&mut self) {
+                        (self.0)()
+                    }
+                }
+                let rest = &ops[oi + 1..];
+                // a teardown of the run (SimAbort) must not escape from the destructor
+                let mut abort: Option<Box<dyn std::any::Any + Send>> = None;
+                {
+                    let abort_slot = &mut abort;
+                    let _ = catch_unwind(AssertUnwindSafe(|| {
+                        let _g = RunOnDrop(|| {
+                            sim::set_unwind_ctx(true);
+                            if let Err(p) =
+                                catch_unwind(AssertUnwindSafe(|| run_ops(it, tid, rest, ctx)))
+                            {
+                                *abort_slot = Some(p);
+                            }
+                            sim::set_unwind_ctx(false);
+                        });
+                        elems::inject_panic("caller-unwinding")
+                    }));
+                }
+                if let Some(p) = abort {
+                    resume_unwind(p);
+                }
+                break;
+            }
             Op::Next => {
                 call(ctx, tid, CallKind::Next, 1, || match it.next() {
                     Some(x) => Res::Item {
